@@ -25,3 +25,11 @@ Theorem C10_reservoir_method_signatures :
 Proof. repeat split; reflexivity. Qed.
 Print Assumptions C10_reservoir_method_signatures.
 
+
+(* a run is stored only once it is complete (nothing is written on the object before or inside the time loop: the translation fails closed
+   otherwise), as time, field and a dropped recovery cache, in both classes - the shape of [ObjectSM.step] for a simulate operation *)
+Theorem C10_simulate_stores_the_run_after_the_loop :
+  IdealReservoir_simulate_stores = ["self.time = time"; "self.pseudopressure = pseudopressure"; "self.__dict__.pop('recovery', None)"] /\
+  SinglePhaseReservoir_simulate_stores = IdealReservoir_simulate_stores.
+Proof. split; reflexivity. Qed.
+Print Assumptions C10_simulate_stores_the_run_after_the_loop.
